@@ -14,6 +14,8 @@ RAW = "src/iterator/exfiltrator/raw.rs"
 PIPE = "src/low_level/pipe.rs"
 FLAG = "src/flag.rs"
 LL = "src/low_level/mod.rs"
+TK = "signal-hook-tokio/src/lib.rs"
+AS = "signal-hook-async-std/src/lib.rs"
 
 # (name, property expected to fire, [(file, old, new)...], runs)
 MUTANTS = [
@@ -69,6 +71,10 @@ MUTANTS = [
  ("c15-condition-latched-at-registration", "C15", [(FLAG, "    let action = move || {\n        if condition.load(Ordering::SeqCst) {\n            low_level::exit(status);\n        }\n    };", "    let c = condition.load(Ordering::SeqCst);\n    let action = move || {\n        if c || (false && condition.load(Ordering::SeqCst)) {\n            low_level::exit(status);\n        }\n    };")], 8000),
  ("c15-shutdown-ignores-disarm", "C15", [(FLAG, "    let action = move || {\n        if condition.load(Ordering::SeqCst) {\n            low_level::exit(status);\n        }\n    };", "    let seen = AtomicBool::new(false);\n    let action = move || {\n        if condition.load(Ordering::SeqCst) || seen.load(Ordering::SeqCst) {\n            low_level::exit(status);\n        }\n    };\n    let _ = &seen;")], 0),
  ("c15-usize-value-constant", "C15", [(FLAG, "move || flag.store(value, Ordering::SeqCst)", "move || flag.store(value | 1, Ordering::SeqCst)")], 8000),
+ ("c11-tokio-adapter-try-read", "C11", [(TK, "        match Pin::new(read).poll_read(ctx, &mut read_buf) {\n            Poll::Pending => Ok(false),\n            Poll::Ready(Ok(())) => Ok(true),\n            Poll::Ready(Err(error)) => Err(error),\n        }", "        let _ = (&ctx, &mut read_buf);\n        let mut b = [0u8];\n        match read.try_read(&mut b) {\n            Ok(n) => Ok(n > 0),\n            Err(e) if e.kind() == std::io::ErrorKind::WouldBlock => Ok(false),\n            Err(e) => Err(e),\n        }")], 20000),
+ ("c11-asyncstd-closed-is-pending", "C11", [(AS, "            PollResult::Closed => Poll::Ready(None),", "            PollResult::Closed => Poll::Pending,")], 20000),
+ ("c11-tokio-closed-is-pending", "C11", [(TK, "            PollResult::Closed => Poll::Ready(None),", "            PollResult::Closed => Poll::Pending,")], 20000),
+ ("c03-iterator-action-allocates", "C03", [(BE, "            ex.store(slot, signal, act);\n            write.wake_readers();", "            ex.store(slot, signal, act);\n            let _dbg = format!(\"{}\", signal);\n            write.wake_readers();")], 12000),
  ("c18-poison-fatal", "C18", [(HL, "            .unwrap_or_else(PoisonError::into_inner);", "            .unwrap();")], 60000),
  ("c18-barrier-needs-arrival", "C18", [(HL, "*seen = *seen || slot.load(Ordering::SeqCst) == 0;", "*seen = *seen || slot.load(Ordering::SeqCst) == 1;")], 30000),
 ]
